@@ -566,6 +566,33 @@ pub fn c04(tier: Tier) -> i32 {
             }
         }
     }
+    // the owner renewed (twice) before the tracker completes: the refund goes on top of whatever they hold
+    for renewals in [1usize, 2] {
+        let mut sd = vec![Ev::Register(1)];
+        for _ in 0..renewals {
+            sd.push(Ev::Register(1));
+        }
+        sd.extend(vec![
+            Ev::Add { user: 1, disp: 1, blob: Blob::Large, tsd: 42 },
+            Ev::MineP(MineSel::Txs(vec![TxName::D(1)])),
+            Ev::MineP(MineSel::Mempool),
+            Ev::Advance(98),
+            Ev::MineP(MineSel::Empty),
+            Ev::MineP(MineSel::Empty),
+            Ev::MineP(MineSel::Empty),
+        ]);
+        let mut a = Alphabet::basic();
+        a.max_adds = 0;
+        a.max_registers_per_user = 0;
+        a.mine_dispute = false;
+        a.mine_mempool = false;
+        a.mine_empty = false;
+        grid += 1;
+        models.push((
+            TowerModel { label: format!("C04/grid/completion-after-{renewals}-renewals"), cfg: cfg(3, 1000, 6), seed: sd, alphabet: a, props: vec!["C04"], probe: false, forgery: None },
+            0,
+        ));
+    }
     run.set("grid_points", json!(grid));
     // BFS around the tracker seeds.
     for (sd, dq, dt) in [("S3", 4usize, 6usize), ("S4", 4, 6), ("S5", 3, 5), ("S6", 4, 5), ("S8", 4, 5)] {
